@@ -545,6 +545,33 @@ func indirectUseControls() []*RejectCase {
 		b.Inj("Init", i, false, false, nil, SetRef(s.ID))
 		add(b, "set-via-binding")
 	}
+	// chains of interface bindings inside ONE set (I2 -> I1 -> *C, in every listing order): every
+	// link contributes
+	for k, order := range [][]int{{0, 1}, {1, 0}, {0, 1, 2}, {2, 1, 0}, {1, 2, 0}} {
+		b := NewPB(fmt.Sprintf("iu_chain%d", k), "app")
+		c := b.Carrier(0, "Conc")
+		i1 := b.Iface(0, "I1", PtrTo(c), true)
+		m := i1.Decl.Under.Meths[0]
+		i2 := Named(b.P.NewDecl(0, "I2", &Ty{K: "iface", Meths: []string{m}, Params: []*Ty{PtrTo(c)}}, "iface"))
+		i3 := Named(b.P.NewDecl(0, "I3", &Ty{K: "iface", Meths: []string{m}, Params: []*Ty{PtrTo(c)}}, "iface"))
+		links := []*Item{b.Bind(i1, PtrTo(c)), b.Bind(i2, i1), b.Bind(i3, i2)}
+		top := i2
+		if len(order) == 3 {
+			top = i3
+		}
+		f := b.Func(0, "NewConc", PtrTo(c), false, false)
+		f.Stub = true
+		u := b.Carrier(0, "User")
+		fu := b.Func(0, "NewUser", u, false, false, top)
+		fu.Stub = true
+		build := []Ref{ItemRef(f.ID)}
+		for _, x := range order {
+			build = append(build, ItemRef(links[x].ID))
+		}
+		build = append(build, ItemRef(fu.ID))
+		b.Inj("Init", u, false, false, nil, build...)
+		add(b, fmt.Sprintf("binding-chain/order=%v", order))
+	}
 	{ // injector argument used only through a binding, value used via struct field
 		b := NewPB("iu6", "app")
 		c := b.Carrier(0, "Conc")
